@@ -243,7 +243,7 @@ def judge_exec(chk: Check, jcases, frecs, require_classes: bool = True) -> None:
                           "representation": c.rep, "valid_jumpdests": rec[br.F_J], "name": c.name})
                 kind = clause.split(":")[0].replace(" ", "-")
                 cls = "exec-jumpi-symbolic-condition-invalid-target" if c.form == "jumpis" and invalid else "exec-e1"
-                found[f"{cls}:{kind}"].append((f"{cls}:{kind}:{o.item.key}",
+                found[cls].append((f"{cls}:{kind}:{o.item.key}",
                                                f"{c.name} [{c.form}] target {c.target} input {o.inp}: path {idx}: {clause}", d))
             if not o.covered and not o.flagged and not o.match.unevaluable:
                 found["exec-e1:uncovered"].append((f"exec-e1:uncovered:{o.item.key}",
@@ -253,6 +253,7 @@ def judge_exec(chk: Check, jcases, frecs, require_classes: bool = True) -> None:
         for key, what, d in lst[:MAX_PER_CLASS]:
             chk.violation(key, f"{what} ({len(lst)} disagreements in this class)", d)
     chk.cov["exec_disagreements_by_class"] = {k: len(v) for k, v in found.items()}
+    chk.cov["exec_disagreements_by_kind"] = dict(collections.Counter(":".join(key.split(":")[:2]) for v in found.values() for key, _, _ in v))
     chk.cov["exec"] = {"programs": len(jcases), "handmade": sum(1 for c in jcases if c.name != "sampled" and c.name != "sampled-sym"),
                        "classes": dict(classes), "e1_programs": len(items), "e1_inputs_compared": ncmp,
                        "forms": dict(collections.Counter(c.form for c in jcases))}
